@@ -23,6 +23,7 @@ var registry = map[string]func(*chk.Run){
 	"C10": checks.C10,
 	"C11": checks.C11,
 	"C12": checks.C12,
+	"C13": checks.C13,
 	"C14": checks.C14,
 	"C15": checks.C15,
 	"C16": checks.C16,
